@@ -665,6 +665,11 @@ func normalizePath(dst, src []byte) []byte {
 		return b
 	}
 
+	// remove trailing /. (RFC 3986 section 5.2.4 step 2B: "/." becomes "/")
+	if n := len(b); n >= 2 && b[n-1] == '.' && b[n-2] == '/' {
+		b = b[:n-1]
+	}
+
 	// remove /./ parts
 	for {
 		n := bytes.Index(b, strSlashDotSlash)
